@@ -11,6 +11,10 @@ Texts == {<<"@jsx h", "h", TRUE>>, <<"@jsx  custom", "custom", TRUE>>, <<"@jsx h
           <<"@jsxImportSource vue", "", TRUE>>, <<"@jsxRuntime automatic", "", TRUE>>, <<"@jsxFrag F", "", TRUE>>,
           <<"just a comment", "", TRUE>>, <<"@jsximportsource h", "", TRUE>>, <<"see @jsx h", "", FALSE>>}
 Styles == {"block", "line", "jsdoc", "jsdoc_multiline"}
+(* another @jsx* annotation (or a nameless @jsx) written before the real one, in the same leading comment group *)
+Groups == {"/** @jsxRuntime classic */ /** @jsx h */", "/**\n * @jsxImportSource vue\n * @jsxFrag F\n * @jsx h\n */",
+           "// @jsxFrag F\n// @jsx h", "/* @jsx */ /* @jsx h */", "/* @jsxRuntime automatic */\n/* unrelated */\n/* @jsx h */",
+           "/** @jsx h */ /** @jsxRuntime classic */", "/* unrelated */ // @jsx h"}
 Places == {"head", "before_second", "before_export_default", "inside_function", "trailing", "inside_expression"}
 
 Comment(style, text) ==
@@ -41,8 +45,15 @@ Effective(place) == place \in {"head", "before_second", "before_export_default"}
 Raw == {[place |-> p, style |-> s, text |-> t, optPragma |-> op] :
           p \in Places, s \in Styles, t \in Texts, op \in {"", "hh"}}
 
+GroupCases ==
+  {[case |-> "C15-g", prop |-> "C15", opts |-> [DefaultOpts EXCEPT !.pragma = op], place |-> p, style |-> "group", text |-> g,
+    named |-> "h", strict |-> TRUE, pragmas |-> <<"h", "custom", "hh", "F">>, items |-> ModuleFor(p, g)] :
+     g \in Groups, p \in {"head", "before_second", "before_export_default"}, op \in {"", "hh"}}
+
 CaseSeq ==
-  LET raw == SetToSeq(Raw) IN
+  LET raw == SetToSeq(Raw)
+      grp == SetToSeq(GroupCases) IN
+  [j \in 1..Len(grp) |-> [grp[j] EXCEPT !.case = "C15-g" \o ToString(j)]] \o
   [i \in 1..Len(raw) |->
      LET r == raw[i]
          named == IF Effective(r.place) THEN r.text[2] ELSE ""
